@@ -29,7 +29,11 @@ NU_MAX = 0.49                     # 0 <= nu <= 0.49
 H_MIN_REL = 1.0e-12               # H_MIN_REL*E <= H <= E where the root-finder contract is used (see O3 for [0, E])
 EQPS_MAX = 10.0
 STRAIN_MAX = 1.0
-TOL = 1e-10                       # J2Plastic._TOLERANCE (only used to phrase goals; the encoded value is the code's)
+
+
+def tol_rel():
+    """the module's own tolerance constant J2Plastic._TOLERANCE (shared by the yield test and the root finder)"""
+    return float(_mods()[0]._TOLERANCE)
 
 
 def _mods():
@@ -380,6 +384,7 @@ def f_state(dg, st, E, nu, Y0, H, dt):
 C_FLOW = float(onp.sqrt(3. / 2.))   # the normalisation of the flow direction (N:N = 3/2) as a binary64 number
 import fractions
 CC_EXACT = fractions.Fraction(C_FLOW) ** 2   # its exact square (the code's N:N)
+DEFECT_EXACT = 3 - 2 * CC_EXACT              # 3 - 2 c^2 = 5.3e-16 > 0: binary64 sqrt(3/2) is rounded down
 
 
 def f_chain(dg, st, E, nu, Y0, H, dt, energy=False, stress=False):
@@ -445,7 +450,7 @@ class Q:
         self.s, as0 = sq('s0', self.DD0)
         self.s1, as1 = sq('s1', self.DD1)
         self.nz0, self.nz1 = v_lt(1e-16, self.DD0), v_lt(1e-16, self.DD1)
-        self.tolY = v_mul(TOL, self.Y0)
+        self.tolY = v_mul(tol_rel(), self.Y0)
         self.sq_defs = as0 + as1
         self.assumes = box_moduli(i, hmin_rel=hmin_rel) + box_state(i) + state_invariant(i['st']) + as0 + as1
         # s - c*a : the norm of the deviatoric elastic strain after the return
@@ -882,7 +887,7 @@ def o5(h):
         Y0 = s0(i['Y0'])
         box = box_moduli(i, hmin_rel=0.0) + [v_and(v_le(-2.0, e), v_le(e, 2.0)) for e in flat(i['Ee'])]
         d = v_sub(y, x)
-        tol = v_mul(TOL, Y0)
+        tol = v_mul(tol_rel(), Y0)
         return box, [Lt(rx, ry, when=v_lt(x, y), name='residual_strictly_increasing', scale=0.0),
                      Le(v_add(px, v_mul(rx, d)), py, name='potential_above_tangent', scale=Y0)]
     recs = c.prove('convex', spec, cap=150, order=('core', 'nlsat'))
@@ -898,7 +903,7 @@ def o5(h):
             f = z3.substitute(f, (t, v))
         return f
     facts = [sub(_fact(a)) for r_, a in zip(recs, atoms) if r_ is not None and r_['status'] == 'discharged' and a.name == 'potential_above_tangent']
-    tol = v_mul(TOL, Y0)
+    tol = v_mul(tol_rel(), Y0)
     goal = Le(px, v_add(py, v_mul(tol, v_abs(v_sub(y, x)))), when=v_le(v_abs(rx), tol), name='approximate_root_is_minimiser', scale=Y0)
     g2 = _sub_atom(goal, sub)
     ok = _consts(facts + [g2.neg(0)]) <= {'abs_pot_x', 'abs_pot_y', 'abs_r_x', 'x', 'y', 'Y0'}
@@ -908,7 +913,7 @@ def o5(h):
         def spec3(i, o):
             b, _a = spec(i, o)
             xx, yy = s0(i['x']), s0(i['y'])
-            t = v_mul(TOL, s0(i['Y0']))
+            t = v_mul(tol_rel(), s0(i['Y0']))
             return b, Le(s0(o[0]), v_add(s0(o[1]), v_mul(t, v_abs(v_sub(yy, xx)))), when=v_le(v_abs(s0(o[2])), t), name='', scale=s0(i['Y0']))
         fb = c.prove('convex.approximate_root_is_minimiser[over_real_inputs]', spec3, cap=120, order=('core', 'nlsat'))
         if rec is not None and all(r_ is not None and r_['status'] in ('discharged', 'violated') for r_ in fb) and rec in h.records:
@@ -966,3 +971,194 @@ def o7b(h):
         ch.close('principal.stress_within_tolerance[%d%d]' % (k // 3, k % 3), goal, cap=200, order=('core', 'nlsat'),
                  table=lambda q: _table_all(q) + [('S0_%d' % j, flat(q.ax['S0'])[j]) for j in range(9)] + [('S1_%d' % j, flat(q.ax['S1'])[j]) for j in range(9)]
                  + [('G_%d' % j, flat(q.ax['G'])[j]) for j in range(9)] + [('N_%d' % j, flat(q.ax['N0'])[j]) for j in range(9)])
+
+
+# ------------------------------------------------------------------------------------------ Voce hardening (thorough tier)
+YSAT_MAX_REL, EPS0_MIN, EPS0_MAX = 10.0, 1e-3, 1.0
+EXV = dict(dg=EX['dg'], st=EX['st'], E=200.0, nu=0.3, Y0=1.0, Ysat=2.0, eps0=0.05, y=0.01, dt=1.0)
+
+
+def sampler_voce(rng):
+    v = sampler_full(rng)
+    return v[:5] + [v[4] * rng.uniform(1.1, 3.0), 10 ** rng.uniform(-2, -0.5), abs(rng.normal()) * 1e-2, 1.0]
+
+
+def f_voce(dg, st, E, nu, Y0, Ysat, eps0, y, dt):
+    """state update with Voce hardening + by-products; y is a free probe argument at which the REAL residual r (the function
+    update_state hands to find_root) and the REAL flow stress are also evaluated"""
+    J2, Hd, SRF, TM = _mods()
+    m = make_model(E, nu, Y0, (Ysat, eps0), kind='voce')
+    props = J2.make_properties(E, nu, Y0)
+    hm = Hd.create_hardening_model({'hardening model': 'voce', 'yield strength': Y0, 'saturation strength': Ysat, 'reference plastic strain': eps0})
+    site('a')
+    st1 = m.compute_state_new(dg, st, dt)
+    E0 = J2.compute_elastic_linear_strain(dg, st)
+    D0, N0 = TM.dev(E0), J2.compute_flow_direction(E0)
+    aux = dict(mu=props[J2.PROPS_MU], DD0=jnp.tensordot(D0, D0), DN0=jnp.tensordot(D0, N0), F0=hm.compute_flow_stress(st[0], st[0], dt),
+               Fy=hm.compute_flow_stress(y, st[0], dt), ry=J2.r(E0, y, st[0], dt, props, hm))
+    return st1, aux
+
+
+def box_voce(i):
+    Y0, Ysat, eps0, y = s0(i['Y0']), s0(i['Ysat']), s0(i['eps0']), s0(i['y'])
+    return box_moduli(i, kind='voce') + box_state(i) + state_invariant(i['st']) + [
+        v_le(Y0, Ysat), v_le(Ysat, v_mul(YSAT_MAX_REL, Y0)), v_le(EPS0_MIN, eps0), v_le(eps0, EPS0_MAX), v_le(-2 * EQPS_MAX, y), v_le(y, 2 * EQPS_MAX)]
+
+
+def exp_axioms(ctx):
+    """ground instances for the exp/expm1 terms that occur: positivity, monotonicity (jx.uf_axioms), and the two numeric facts
+    exp(a) <= 4.3e-18 for a <= -40 and exp(a) >= 9.3e-14 for a >= -30 (true of the real exponential)"""
+    ax = jx.uf_axioms(ctx)
+    for v, n, a in ctx.ufs.values():
+        if n == 'exp':
+            ax += [z3.Implies(a[0] <= -40, v <= rat(4.3e-18)), z3.Implies(a[0] >= -30, v >= rat(9.3e-14)), z3.Implies(a[0] <= 0, v <= 1)]
+        if n == 'expm1':      # JAX differentiates expm1 as expm1 + 1, so the flow stress is phrased with expm1
+            ax += [z3.Implies(a[0] <= -40, v + 1 <= rat(4.3e-18)), z3.Implies(a[0] >= -30, v + 1 >= rat(9.3e-14)), z3.Implies(a[0] <= 0, v <= 0)]
+    return ax
+
+
+def _scalar_close(h, name, facts, goal, table, scalars, cap=30, order=('nlsat', 'core')):
+    """rename the compound terms of `table` to fresh scalars in facts and goal, drop everything else, decide"""
+    pairs = []
+    for nm, t in table:
+        if isz(t) and not (_consts([t]) <= scalars):
+            pairs.append((t, (z3.Bool if z3.is_bool(t) else z3.Real)('abs_' + nm)))
+    pairs.sort(key=lambda p: -_size(p[0]))
+
+    def sub(f):
+        for t, v in pairs:
+            f = z3.substitute(f, (t, v))
+        return f
+    ok = scalars | {str(v) for _, v in pairs}
+    fs = [sub(tob(f)) for f in facts]
+    fs = [f for f in fs if _consts([f]) <= ok]
+    g2 = _sub_atom(goal, sub)
+    if not _consts([g2.neg(0)]) <= ok:
+        return None
+    return h.prove(name, fs, g2, inputs={str(v): v for _, v in pairs}, concrete=None, cap=cap, order=order,
+                   note='chain close: %d proved links, definitions dropped, %d compound terms renamed' % (len(fs), len(pairs)))
+
+
+@obligation(P, 'O8.voce', tiers=('thorough',), cap=600)
+def o8(h):
+    """Voce hardening (exp/expm1 uninterpreted + ground axiom instances): irreversibility, isochoric symmetric increment,
+    bracket: lb < ub, r(lb) < 0, r(ub) >= -(3 - 2c^2) mu (ub - lb) (c = binary64 sqrt(3/2)), and r(ub) >= 0 exactly when the
+    hardening over the bracket exceeds that rounding defect; strict monotonicity of r"""
+    _common(h, linear=False)
+    J2, Hd, SRF, TM = _mods()
+    h.encoded(Hd.voce)
+    h.bounds('Voce hardening: Y0 <= Ysat <= %g*Y0, %g <= reference plastic strain <= %g; plane-strain block' % (YSAT_MAX_REL, EPS0_MIN, EPS0_MAX))
+    h.assume_note('exp and expm1 are uninterpreted (Ackermannised); ground instances of: exp > 0, monotonicity between the occurring arguments, '
+                  'exp(a) <= 4.3e-18 for a <= -40, exp(a) >= 9.3e-14 for a >= -30, exp(a) <= 1 for a <= 0 (for expm1: the same shifted by 1)')
+    # ---- O1/O2 with the contract post-condition
+    c = J2Case(h, f_voce, EXV, build=build_plane, sampler=sampler_voce, label='voce_state_new')
+
+    def spec12(i, o, calls):
+        st1 = o[0]
+        e = onp.asarray(st1[1:], dtype=object).reshape(3, 3)
+        g = calls('a')['guard']
+        return box_voce(i), [Le(i['st'][0], st1[0], when=g, name='eqps_nondecreasing_yielding', scale=1e-3),
+                             Eq(list(i['st']), list(st1), when=v_not(g), name='state_unchanged_elastic', scale=1e-3),
+                             Eq(v_sum([e[0, 0], e[1, 1], e[2, 2]]), 0.0, when=g, name='traceless_yielding', scale=1e-3),
+                             Eq([v_sub(e[a, b], e[b, a]) for a in range(3) for b in range(a + 1, 3)], 0.0, when=g, name='symmetric_yielding', scale=1e-3)]
+    c.prove('update', spec12, cap=200, order=('core', 'nlsat'))
+    # ---- O3: bracket (no post-condition); the probe argument y is instantiated with ub
+    c = J2Case(h, f_voce, EXV, build=build_plane, sampler=sampler_voce, label='voce_bracket', assume_post=False, validate=1)
+    sq = SpecSqrt()
+    ax = exp_axioms(c.ctx)
+
+    def terms(i, o, calls):
+        A = calls('a')
+        st1, a = o
+        d = dict(A=A, g=A['guard'], mu=s0(a['mu']), DD0=s0(a['DD0']), DN0=s0(a['DN0']), F0=s0(a['F0']), Fy=s0(a['Fy']), ry=s0(a['ry']), y=s0(i['y']),
+                 e0=i['st'][0], Y0=s0(i['Y0']), Ysat=s0(i['Ysat']))
+        d['s'], d['sdef'] = sq('s0', d['DD0'])
+        d['nz0'] = v_lt(1e-16, d['DD0'])
+        d['tolY'] = v_mul(tol_rel(), d['Y0'])
+        d['T'] = v_mul(v_mul(2.0, d['mu']), d['DN0'])
+        d['w'] = v_sub(A['ub'], A['lb'])
+        d['defect'] = v_mul(v_mul(DEFECT_EXACT if isz(d['mu']) else float(DEFECT_EXACT), d['mu']), d['w'])   # (3 - 2c^2) mu w, exact constant
+        d['inst'] = v_implies(d['g'], v_eq(d['y'], A['ub'])) if isz(d['g']) else True
+        return d
+    facts = []
+
+    def link(name, mk, cap=60, order=('core', 'nlsat'), inst=False, axioms=False):
+        def spec(i, o, calls):
+            d = terms(i, o, calls)
+            return box_voce(i) + d['sdef'] + ([d['inst']] if inst else []), mk(d)
+        recs = c.prove(name, spec, cap=cap, order=order, extra_assumes=[f for f in facts] + (ax if axioms else []))
+        atoms = mk(terms(c.inp, c.out, c.calls))
+        for r_, at in zip(recs, atoms):
+            if r_ is not None and r_['status'] == 'discharged':
+                facts.append(_fact(at))
+        return recs
+    link('flow_stress', lambda d: [Le(d['F0'], d['Fy'], when=v_le(d['e0'], d['y']), name='nondecreasing', scale=d['Y0']),
+                                   Le(d['Y0'], d['F0'], when=v_le(0.0, d['e0']), name='at_least_Y0', scale=d['Y0'])], axioms=True)
+    link('yield_predicate', lambda d: [
+        Holds(v_eq(d['g'], v_lt(d['tolY'], v_sub(d['T'], d['F0']))) if isz(d['g']) else (bool(d['g']) == bool(d['tolY'] < d['T'] - d['F0'])), name='yield_test'),
+        Lt(1e-16, d['DD0'], when=d['g'], name='yielding_implies_nondegenerate', scale=0.0),
+        Eq(d['A']['lb'], d['e0'], when=d['g'], name='lb_is_old_eqps', scale=1e-3)])
+    link('bracket_ends', lambda d: [
+        Eq(d['A']['rl'], v_sub(d['F0'], d['T']), when=v_and(d['g'], d['nz0']), name='r_lb_closed_form', scale=d['Y0']),
+        Eq(v_mul(v_mul(3.0, d['mu']), d['w']), v_sub(d['T'], d['F0']), when=v_and(d['g'], d['nz0']), name='width_closed_form', scale=d['Y0']),
+        Eq(d['ry'], v_add(v_sub(v_mul(v_mul(2.0, d['mu']), v_mul(C_FLOW, v_mul(C_FLOW, v_sub(d['y'], d['e0'])))), d['T']), d['Fy']), when=d['nz0'],
+           name='residual_closed_form_at_probe', scale=d['Y0'])])
+    link('probe_is_ub', lambda d: [Eq(d['A']['rh'], d['ry'], when=d['g'], name='r_ub_is_residual_at_probe', scale=d['Y0'])], inst=True)
+    d = terms(c.inp, c.out, c.calls)
+    A = d['A']
+    table = [('g', d['g']), ('rl', A['rl']), ('rh', A['rh']), ('ub', A['ub']), ('DN0', d['DN0']), ('DD0', d['DD0']), ('F0', d['F0']), ('Fy', d['Fy']), ('ry', d['ry'])]
+    scal = {'E', 'nu', 'Y0', 'Ysat', 'eps0', 'y', 'dt', 'st_0', str(d['s'])}
+    box = [tob(x) for x in box_moduli(c.inp, kind='voce')] + [tob(x) for x in d['sdef']] + [tob(d['inst']), d['e0'] >= 0]
+    for nm, goal in (('lb_lt_ub', Lt(A['lb'], A['ub'], when=d['g'], scale=0.0)), ('r_lb_negative', Lt(A['rl'], 0.0, when=d['g'], scale=0.0)),
+                     ('r_ub_ge_minus_rounding_defect_of_sqrt_3_2', Le(v_sub(0.0, d['defect']), A['rh'], when=d['g'], scale=d['Y0'])),
+                     ('r_ub_nonnegative_when_hardening_exceeds_defect', Le(0.0, A['rh'], when=v_and(d['g'], v_le(d['defect'], v_sub(d['Fy'], d['F0']))), scale=d['Y0']))):
+        rec = _scalar_close(h, 'bracket.' + nm, facts + box, goal, table, scal)
+        if rec is None or rec['status'] != 'discharged':
+            def spec(i, o, calls, nm=nm):
+                dd = terms(i, o, calls)
+                AA = dd['A']
+                gl = {'lb_lt_ub': Lt(AA['lb'], AA['ub'], when=dd['g'], scale=0.0), 'r_lb_negative': Lt(AA['rl'], 0.0, when=dd['g'], scale=0.0),
+                      'r_ub_ge_minus_rounding_defect_of_sqrt_3_2': Le(v_sub(0.0, dd['defect']), AA['rh'], when=dd['g'], scale=dd['Y0']),
+                      'r_ub_nonnegative_when_hardening_exceeds_defect': Le(0.0, AA['rh'], when=v_and(dd['g'], v_le(dd['defect'], v_sub(dd['Fy'], dd['F0']))), scale=dd['Y0'])}[nm]
+                return box_voce(i) + dd['sdef'] + [dd['inst']], gl
+            c.prove('bracket.%s[over_real_inputs]' % nm, spec, cap=60, extra_assumes=facts + ax)
+    # ---- the designed goal r(ub) >= 0 itself, in the saturated regime eqps >= 40*eps0 (hardening over the bracket below the defect)
+    def spec_sat(i, o, calls):
+        dd = terms(i, o, calls)
+        return box_voce(i) + dd['sdef'] + [dd['inst'], v_le(v_mul(40.0, s0(i['eps0'])), dd['e0'])], Le(0.0, dd['A']['rh'], when=dd['g'], name='', scale=0.0)
+    pins = dict(dg=(1 / 64) * onp.array([[1.0, 2.0, 0.0], [0.0, -1.0, 0.0], [0.0, 0.0, 0.0]]), st=onp.array([2.0] + [0.0] * 9), E=200.0, nu=0.25, Y0=1.0, Ysat=2.0,
+                eps0=1 / 64, dt=1.0)
+    pin = [x == rat(float(v)) for n, a in pins.items() for x, v in zip(c.free[n].ravel(), onp.asarray(a, dtype=float).ravel())]
+    c.prove('bracket.r_ub_nonnegative[saturated:eqps>=40*eps0]', spec_sat, cap=120, order=('nlsat', 'core'), extra_assumes=facts + ax + pin, witness=False)
+    # ---- strict monotonicity of the residual (uniqueness of the root; convexity of the potential along the flow direction)
+    from ..jxh import Case
+
+    def f_r2(Ee, x, y, xo, E, nu, Y0, Ysat, eps0, dt):
+        props = J2.make_properties(E, nu, Y0)
+        hm = Hd.create_hardening_model({'hardening model': 'voce', 'yield strength': Y0, 'saturation strength': Ysat, 'reference plastic strain': eps0})
+        return J2.r(Ee, x, xo, dt, props, hm), J2.r(Ee, y, xo, dt, props, hm)
+    ex = dict(Ee=EX['dg'], x=0.01, y=0.02, xo=0.005, E=200.0, nu=0.3, Y0=1.0, Ysat=2.0, eps0=0.05, dt=1.0)
+    smp = lambda rng: [rng.normal(size=(3, 3)) * 0.01, abs(rng.normal()) * 0.01, abs(rng.normal()) * 0.01, abs(rng.normal()) * 0.01,
+                       10 ** rng.uniform(1.5, 3), rng.uniform(0, 0.45), 1.0, rng.uniform(1.1, 3.0), 10 ** rng.uniform(-2, -0.5), 1.0]
+    c5 = Case(h, f_r2, ex, sampler=smp, label='voce_residual')
+
+    def spec5(i, o):
+        x, y = s0(i['x']), s0(i['y'])
+        box = box_moduli(i, kind='voce') + [v_and(v_le(-2.0, e), v_le(e, 2.0)) for e in flat(i['Ee'])] + [
+            v_le(s0(i['Y0']), s0(i['Ysat'])), v_le(EPS0_MIN, s0(i['eps0'])), v_le(s0(i['eps0']), EPS0_MAX)]
+        return box, Lt(s0(o[0]), s0(o[1]), when=v_lt(x, y), name='residual_strictly_increasing', scale=0.0)
+    c5.prove('voce_residual', spec5, cap=120, axioms=True)
+
+
+DESIGNED_NOT_REGISTERED = [
+    ('O7 stress before/after commit on the plane-strain and full 3x3 rungs',
+     'the exact identity S_before - S_after = r(x) * d(eqps\')/d(dispGrad) and the closed form of that sensitivity stay unknown at 60 s (z3 core and nlsat) '
+     'already on the plane-strain block; registered for the principal frame only (O7b, thorough tier). The energy part of O7 is registered on all rungs.'),
+    ('O3 r(ub) >= 0 for Voce hardening over the whole parameter box',
+     'false in real arithmetic: r(ub) = flow(ub) - flow(lb) - (3 - 2 c^2) mu (ub - lb) with c = binary64 sqrt(3/2) < sqrt(3/2); near saturation the hardening over '
+     'the bracket is below the defect. Registered instead (O8): r(ub) >= -(3 - 2c^2) mu (ub - lb), r(ub) >= 0 iff hardening over the bracket >= defect, and a '
+     'saturated-regime query that reproduces the NaN state on the real code.'),
+    ('O5 tangent inequality / approximate minimality for Voce', 'needs convexity (tangent) instances of exp between the two arguments; only strict monotonicity of r is registered for Voce (O8)'),
+    ('power-law hardening (n = 1) and power-law rate sensitivity (m = 1)', 'not built in this round; outside the claim (stated in h.outside)'),
+    ('O4/O6/O7 for Voce', 'chain links (ii)-(iv) are hardening independent, but the closes need flow(x) >= Y0 and the contract at the new eqps with exp instances; not built in this round'),
+]
